@@ -83,6 +83,7 @@ EXTRA_COUNT_PAIRS = [
     ("pe", ["signatures", "*"], "number_of_countersignatures", "countersignatures"),
     ("pe", ["signatures", "*", "signer_info"], "length_of_chain", "chain"),
     ("pe", ["signatures", "*", "countersignatures", "*"], "length_of_chain", "chain"),
+    ("dex", ["map_list"], "size", "map_item"),
     ("dex", [], "number_of_fields", "field"),
     ("dex", [], "number_of_methods", "method"),
 ]
